@@ -517,6 +517,9 @@ fn cmd_determinism(args: &[String]) -> i32 {
         let a = hashes(16);
         let b = hashes(1.max(3));
         let diff = a.iter().zip(b.iter()).filter(|(x, y)| x != y).count();
+        for (i, (x, y)) in a.iter().zip(b.iter()).enumerate().filter(|(_, (x, y))| x != y).take(8) {
+            println!("  run {}: {:?} vs {:?}", i, x, y);
+        }
         println!("determinism property={} runs={} x2 (16 workers vs 3 workers) differing={}", id, n, diff);
         if diff > 0 {
             bad += 1;
